@@ -3,17 +3,29 @@ import MakoModel.PyExpr.PrintSpec
 /-!
 The guard of `identifiers_exact_partial`: blocks without nested scopes.
 
-`flatBlock b` holds when the block contains no lambda, no comprehension, no `def`, no `class` (the constructs that
-open a scope of their own - exactly where `FindIdentifiers` departs from Python's scoping), no `del`, no
-`global`/`nonlocal`, and no `from m import *`.  Everything else - any nesting of `for`/`while`/`if`/`try`/`with`,
+`flatBlock b` holds when the block contains no comprehension, no `def`, no `class`, no `del`, no
+`global`/`nonlocal`, no `from m import *`, and only lambdas without default values and without `:=` in their body
+(parameters of every kind, nested lambdas included) - i.e. everything except the constructs where `FindIdentifiers`
+still departs from Python's scoping (F12b, F12c, F12e, F12f, F12g).  Everything else - any nesting of `for`/`while`/`if`/`try`/`with`,
 assignments to names, tuples, attributes and subscripts, augmented assignments, imports, `:=`, calls with any
 kind of argument, every operator, conditional expressions, displays, f-strings - is inside the guard.
 -/
 namespace MakoModel.PyExpr
 
-/-- this node does not open a scope and is not a `del` target -/
+/-- this node binds no name: no stored/deleted name, no `:=` -/
+def noStoreLocal : Expr → Bool
+  | .name _ .store | .name _ .del => false
+  | .namedExpr .. => false
+  | _ => true
+
+def Args.noDefaults : Args → Bool
+  | .mk _ _ _ _ kwDefaults _ defaults => defaults.isEmpty && kwDefaults.all Option.isNone
+
+/-- this node is inside the guard: no comprehension, no `del` target; a lambda only when it has no default values
+(`FindIdentifiers` never visits them) and binds nothing in its body (no `:=`) -/
 def flatLocal : Expr → Bool
-  | .lambda .. | .listComp .. | .setComp .. | .generatorExp .. | .dictComp .. => false
+  | .listComp .. | .setComp .. | .generatorExp .. | .dictComp .. => false
+  | .lambda a b => a.noDefaults && b.all noStoreLocal
   | .name _ .del => false
   | _ => true
 
@@ -64,6 +76,7 @@ def flatBlock (b : List Stmt) : Bool := flatSs b
 /-- the `visit_*` methods of `FindIdentifiers` that the flat fragment goes through are still there -/
 structure FIVisitors : Prop where
   name : fiHas ['N', 'a', 'm', 'e'] = true
+  lambda : fiHas ['L', 'a', 'm', 'b', 'd', 'a'] = true
   assign : fiHas ['A', 's', 's', 'i', 'g', 'n'] = true
   for_ : fiHas ['F', 'o', 'r'] = true
   handler : fiHas ['E', 'x', 'c', 'e', 'p', 't', 'H', 'a', 'n', 'd', 'l', 'e', 'r'] = true
